@@ -160,6 +160,9 @@ type outerDial struct {
 	inv, ret int
 	done     bool
 	attempts []string      // innermost addresses attempted
+	accepted int           // attempts the controller let succeed
+	refused  int           // attempts the controller refused
+	result   string        // \"ok\" or \"err ...\" as seen by the caller
 	t        time.Duration // fake time at invocation
 	tRet     time.Duration // fake time at return
 }
@@ -316,6 +319,7 @@ func runDial(tt *testing.T, tape *simrt.Tape, keep bool) (out simrt.Outcome) {
 				case kDialIdle:
 					if d := cur[ar.Actor]; d != nil {
 						d.ret, d.done, d.tRet = w.Step, true, w.Now()
+						d.result = string(ar.Blob)
 						delete(cur, ar.Actor)
 						if strings.HasPrefix(string(ar.Blob), "err") {
 							stats["probe.outer-dial-failed"]++
@@ -416,6 +420,13 @@ func runDial(tt *testing.T, tape *simrt.Tape, keep bool) (out simrt.Outcome) {
 				if refuseRate > 0 && tape.Choose(100) < refuseRate {
 					v = 1
 					stats["fault.dial-refused"]++
+				}
+				if d := dials[ar.A]; d != nil {
+					if v == 1 {
+						d.refused++
+					} else {
+						d.accepted++
+					}
 				}
 				w.Log.Addf("%d rel-dial a%d %s refuse=%d", w.Step, ar.Actor, ar.Blob, v)
 				w.Release(ar, v, nil)
@@ -544,6 +555,16 @@ func checkDialHistory(fail func(string, string, ...any), stats map[string]int, m
 	for i, d := range order {
 		if !d.done {
 			fail("C18.stuck", "dial #%d never returned", i+1)
+			return
+		}
+		// the caller gets a connection iff some attempt was allowed to succeed (the first success wins; a
+		// failed attempt of the other family must not turn the dial into a failure)
+		if d.accepted > 0 && d.result != "ok" {
+			fail("C18.dial-result", "dial #%d to %s failed (%s) although %d of its %d attempts succeeded", i+1, d.target, d.result, d.accepted, d.accepted+d.refused)
+			return
+		}
+		if d.accepted == 0 && d.refused > 0 && d.result == "ok" {
+			fail("C18.dial-result", "dial #%d to %s reported success although all %d attempts were refused", i+1, d.target, d.refused)
 			return
 		}
 		if rs, ok := cmap[d.target]; ok && d.target != "svc.test:80" {
